@@ -60,26 +60,52 @@ int main(int argc, char **argv) {
                 continue;      /* do not execute an overflowing witness */
             }
             r->validated++; r->cls[0]++;
-            if (form != 1) continue;
+            if (form == 2) continue;
             if (replay_li >= 0 && (li != replay_li || mask != replay_mask)) continue;
-            /* 3. witness: positions 1..15 at their maxima (position 0 is the resulting check word) */
+            /* 3. witnesses. (i) positions 1..15 at their maxima with whatever check word results;
+             *    (ii) an EXACT extremal phrase: data words drawn from the per-position sets of longest words until the
+             *    resulting check word is itself one of the longest, so the phrase attains the computed bound to the byte */
             polyseed_enable_features(mask);
-            unsigned c[16]; memcpy(c, wit, sizeof c); c[0] = 0;
-            rseed s; ref_from_coeffs(c, &s);
-            polyseed_data *d = seed_via_create(&s); r->calls++;
-            if (!d) { res_viol(r, "c17:witness-create", "", "cannot create witness seed"); continue; }
-            struct { polyseed_str out; uint8_t canary[32]; } b; memset(&b, 0x6B, sizeof b);
-            size_t n = polyseed_encode(d, polyseed_get_lang(li), 0, b.out); r->calls++;
-            int bad = 0;
-            for (int i = 0; i < 32; i++) if (b.canary[i] != 0x6B) bad = 1;
-            if (n >= PSTR || strnlen(b.out, PSTR) != n) bad |= 2;
-            polyseed_data *e = NULL; int st = bad ? -1 : polyseed_decode_explicit(b.out, 0, polyseed_get_lang(li), &e); r->calls++;
-            uint8_t s0[32], s1[32]; polyseed_store(d, s0); if (st == POLYSEED_OK) { polyseed_store(e, s1); polyseed_free(e); if (memcmp(s0, s1, 32)) bad |= 8; } else bad |= 4;
-            polyseed_free(d);
-            r->cases++;
-            r->digest ^= mix64(li * 8 + mask, n);
-            if (bad) { char key[100], rep[64]; snprintf(key, sizeof key, "c17:witness:%s", RL[li].code); sprintf(rep, "case %d %u", li, mask); res_viol(r, key, rep, "extremal %s phrase (%zu bytes): flags %d (1=overrun 2=length 4=decode failed 8=different seed)", RL[li].name_en, n, bad); }
-            else { r->validated++; r->cls[1]++; if (r->nsample < 3 && (li == 1 || li == 2) && mask == 7) res_sample(r, "witness %s mask=%u: encode returned %zu bytes, decodes to the same seed", RL[li].code, mask, n); }
+            for (int exact = 0; exact < 2; exact++) {
+                unsigned c[16]; memcpy(c, wit, sizeof c); c[0] = 0;
+                size_t expect_len = 0;
+                if (exact) {
+                    size_t mx[16]; for (int p = 0; p < 16; p++) mx[p] = LEN[li][form][wit[p]];
+                    /* per-position sets of longest admissible words */
+                    static unsigned SET[16][R_NW]; int ns[16];
+                    for (int p = 0; p < 16; p++) { ns[p] = 0; for (unsigned i = 0; i < R_NW; i++) if (admissible(p, i, mask) && LEN[li][form][i] == mx[p]) SET[p][ns[p]++] = i; }
+                    double combos = 1; for (int p = 1; p < 16; p++) { combos *= ns[p]; if (combos > 1e9) combos = 1e9; }
+                    long tries = combos < 200000 ? (long)combos : 200000;
+                    uint64_t ps = 0x3A7 + (uint64_t)li * 131 + mask * 7 + (uint64_t)form; int found = 0;
+                    for (long attempt = 0; attempt < tries && !found; attempt++) {
+                        if (combos < 200000) { long y = attempt; for (int p = 1; p < 16; p++) { c[p] = SET[p][y % ns[p]]; y /= ns[p]; } }   /* enumerate all combinations */
+                        else for (int p = 1; p < 16; p++) c[p] = SET[p][prng(&ps) % (unsigned)ns[p]];
+                        c[0] = 0; unsigned c0 = ref_eval(c);
+                        if (LEN[li][form][c0] == mx[0]) found = 1;
+                    }
+                    if (!found) { if (r->nsample < 5) res_sample(r, "%s mask=%u form=%d: no check word of maximal length among the combinations tried (bound not shown to be attained)", RL[li].code, mask, form); continue; }
+                    expect_len = total;
+                }
+                c[0] = 0;
+                rseed s; ref_from_coeffs(c, &s);
+                polyseed_data *d = seed_via_create(&s); r->calls++;
+                if (!d) { res_viol(r, "c17:witness-create", "", "cannot create witness seed"); continue; }
+                struct { polyseed_str out; uint8_t canary[32]; } b; memset(&b, 0x6B, sizeof b);
+                size_t n = polyseed_encode(d, polyseed_get_lang(li), 0, b.out); r->calls++;
+                int bad = 0;
+                for (int i = 0; i < 32; i++) if (b.canary[i] != 0x6B) bad = 1;
+                if (n >= PSTR || strnlen(b.out, PSTR) != n) bad |= 2;
+                /* the emitted phrase must be the reference phrase (a dropped or truncated word shows here) */
+                { char refph[2048]; size_t rn = ref_phrase(&s, li, 0, refph, 0); if (!bad && (rn != n || memcmp(refph, b.out, n))) bad |= 16; }
+                if (exact && !bad) { size_t got = form == 0 ? n : 0; if (form == 1) { char raw[2048]; got = ref_phrase(&s, li, 0, raw, 1); } if (got != expect_len) bad |= 32; }
+                polyseed_data *e = NULL; int st = (bad & 3) ? -1 : polyseed_decode_explicit(b.out, 0, polyseed_get_lang(li), &e); r->calls++;
+                uint8_t s0[32], s1[32]; polyseed_store(d, s0); if (st == POLYSEED_OK) { polyseed_store(e, s1); polyseed_free(e); if (memcmp(s0, s1, 32)) bad |= 8; } else bad |= 4;
+                polyseed_free(d);
+                r->cases++;
+                r->digest ^= mix64(li * 8 + mask, n);
+                if (bad) { char key[100], rep[64]; snprintf(key, sizeof key, "c17:witness:%s", RL[li].code); sprintf(rep, "case %d %u", li, mask); res_viol(r, key, rep, "%s %s phrase (encode returned %zu bytes): flags %d (1=overrun 2=length 4=decode failed 8=different seed 16=not the reference phrase 32=bound not attained)", exact ? "exactly extremal" : "near-extremal", RL[li].name_en, n, bad); }
+                else { r->validated++; r->cls[1]++; if (r->nsample < 3 && exact && (li == 1 || li == 2) && mask == 7) res_sample(r, "exact extremal witness %s mask=%u form=%s: computed bound %zu bytes attained, encode returned %zu bytes, decodes to the same seed", RL[li].code, mask, form ? "internal" : "output", expect_len, n); }
+            }
         }
     }
     polyseed_enable_features(7);
